@@ -67,4 +67,165 @@ theorem computeDeltas_ok (pr : PA) (h : WF pr) (votes : List Vote) (oldB newB : 
     exact this.1
   · simp [h.len]
 
+theorem sum_range_set (p : Nat → Bool) (ds : List Int) (c : Nat) (v : Int) (hc : c < ds.length) :
+    ∀ n, (((List.range n).filter p).map (fun j => (ds.set c v).getD j 0)).sum =
+      (((List.range n).filter p).map (fun j => ds.getD j 0)).sum +
+        (if c < n ∧ p c = true then v - ds.getD c 0 else 0) := by
+  intro n
+  induction n with
+  | zero => simp
+  | succ n ih =>
+    rw [List.range_succ, List.filter_append, List.map_append, List.map_append, List.sum_append, List.sum_append, ih]
+    by_cases hp : p n = true
+    · simp only [List.filter_cons, hp, List.filter_nil, if_true, List.map_cons, List.map_nil, List.sum_cons, List.sum_nil]
+      by_cases hcn : c = n
+      · subst hcn
+        have h1 : ¬ (c < c) := by omega
+        have : (ds.set c v).getD c 0 = v := by simp [List.getD_eq_getElem?_getD, hc]
+        rw [this]
+        simp [h1, hp]; omega
+      · have : (ds.set c v).getD n 0 = ds.getD n 0 := by
+          simp [List.getD_eq_getElem?_getD, List.getElem?_set, hcn]
+        rw [this]
+        by_cases hlt : c < n
+        · have : c < n + 1 := by omega
+          simp [hlt, this]; omega
+        · have : ¬ c < n + 1 := by omega
+          simp [hlt, this]
+    · have hp' : p n = false := by simpa using hp
+      simp only [List.filter_cons, hp', List.filter_nil, List.map_nil, List.sum_nil]
+      by_cases hcn : c = n
+      · subst hcn; simp [hp']
+      · by_cases hlt : c < n
+        · have : c < n + 1 := by omega
+          simp [hlt, this]
+        · have : ¬ c < n + 1 := by omega
+          simp [hlt, this]
+
+theorem subSum_addAt (ns : List Node) (ds ds' : List Int) (c : Nat) (x : Int) (hl : ds.length = ns.length)
+    (h : addAt ds c x = some ds') (i : Nat) :
+    subSum ns ds' i = subSum ns ds i + (if anc ns i c = true then x else 0) := by
+  unfold addAt at h
+  cases hd : ds[c]? with
+  | none => simp [hd] at h
+  | some d =>
+    simp [hd] at h
+    subst h
+    have hc : c < ds.length := (List.getElem?_eq_some_iff.mp hd).1
+    unfold subSum
+    rw [sum_range_set (fun j => anc ns i j) ds c (d + x) hc ns.length]
+    have : ds.getD c 0 = d := by simp [List.getD_eq_getElem?_getD, hd]
+    rw [this]
+    by_cases ha : anc ns i c = true
+    · have : c < ns.length := by omega
+      simp [ha, this]; omega
+    · simp [ha]
+
+/-- what `ComputeDeltas` adds to the subtree sums: new applied votes at the new balances minus the old applied
+votes at the old balances -/
+theorem computeDeltasLoop_subSum (pr : PA) (hwf : WF pr) (hz : aGet pr.indices NodeRef.zero = none)
+    (oldB newB : List Nat) (i : Nat) :
+    ∀ (votes : List Vote) (k : Nat) (ds ds' : List Int) (vs' : List Vote), ds.length = pr.nodes.length →
+      computeDeltasLoop pr.indices oldB newB k votes ds = some (ds', vs') →
+      subSum pr.nodes ds' i = subSum pr.nodes ds i + wsumFrom pr newB i k vs' - wsumFrom pr oldB i k votes := by
+  intro votes
+  induction votes with
+  | nil =>
+    intro k ds ds' vs' _ h
+    simp [computeDeltasLoop] at h
+    obtain ⟨rfl, rfl⟩ := h
+    simp [wsumFrom]
+  | cons v vs ih =>
+    intro k ds ds' vs' hl h
+    have hidx : ∀ r j, aGet pr.indices r = some j → j < pr.nodes.length := by
+      intro r j hj
+      obtain ⟨n, hn, _⟩ := hwf.idx_sound r j hj
+      exact (List.getElem?_eq_some_iff.mp hn).1
+    -- the continuation
+    have cont : ∀ (v' : Vote) (ds1 : List Int), ds1.length = pr.nodes.length →
+        (match computeDeltasLoop pr.indices oldB newB (k + 1) vs ds1 with
+          | some (d, l) => some (d, v' :: l)
+          | none => none) = some (ds', vs') →
+        ∃ l, vs' = v' :: l ∧ subSum pr.nodes ds' i = subSum pr.nodes ds1 i +
+          wsumFrom pr newB i (k + 1) l - wsumFrom pr oldB i (k + 1) vs := by
+      intro v' ds1 h1 he
+      cases hr : computeDeltasLoop pr.indices oldB newB (k + 1) vs ds1 with
+      | none => simp [hr] at he
+      | some p =>
+        obtain ⟨d, l⟩ := p
+        simp [hr] at he
+        obtain ⟨rfl, rfl⟩ := he
+        exact ⟨l, rfl, ih (k + 1) ds1 d l h1 hr⟩
+    unfold computeDeltasLoop at h
+    simp only at h
+    split at h
+    · -- never voted: both references are zero, which is not a node
+      rename_i hzero
+      obtain ⟨l, c2, c1⟩ := cont v ds hl h
+      subst c2; rw [c1]
+      have : appliedIn pr i v = false := by simp [appliedIn, hzero.1, hz]
+      simp only [wsumFrom, this, Bool.false_eq_true, ↓reduceIte]
+      omega
+    · split at h
+      · -- touched
+        rename_i hnz htouch
+        cases hc : aGet pr.indices v.cur with
+        | none =>
+          have hap : appliedIn pr i v = false := by simp [appliedIn, hc]
+          simp only [hc] at h
+          cases hn : aGet pr.indices v.next with
+          | none =>
+            simp only [hn] at h
+            obtain ⟨l, c2, c1⟩ := cont v ds hl h
+            subst c2; rw [c1]; simp only [wsumFrom, hap, Bool.false_eq_true, ↓reduceIte]; omega
+          | some nx =>
+            simp only [hn] at h
+            obtain ⟨ds2, h2, hl2⟩ := addAt_ok ds nx (↑(newB.getD k 0)) (by rw [hl]; exact hidx _ _ hn)
+            rw [h2] at h
+            simp only at h
+            obtain ⟨l, c2, c1⟩ := cont _ ds2 (by rw [hl2, hl]) h
+            subst c2; rw [c1, subSum_addAt pr.nodes ds ds2 nx _ hl h2 i]
+            have : appliedIn pr i { v with cur := v.next, curEpoch := v.nextEpoch } = anc pr.nodes i nx := by
+              simp [appliedIn, hn]
+            simp only [wsumFrom, hap, this]
+            cases anc pr.nodes i nx <;> (simp <;> omega)
+        | some c =>
+          have hap : appliedIn pr i v = anc pr.nodes i c := by simp [appliedIn, hc]
+          simp only [hc] at h
+          obtain ⟨ds1, h1, hl1⟩ := addAt_ok ds c (-(↑(oldB.getD k 0))) (by rw [hl]; exact hidx _ _ hc)
+          rw [h1] at h
+          simp only at h
+          have e1 := subSum_addAt pr.nodes ds ds1 c _ hl h1 i
+          cases hn : aGet pr.indices v.next with
+          | none =>
+            simp only [hn] at h
+            obtain ⟨ds2, h2, hl2⟩ := addAt_ok ds1 c (↑(newB.getD k 0)) (by rw [hl1, hl]; exact hidx _ _ hc)
+            rw [h2] at h
+            simp only at h
+            obtain ⟨l, c2, c1⟩ := cont _ ds2 (by rw [hl2, hl1, hl]) h
+            subst c2; rw [c1, subSum_addAt pr.nodes ds1 ds2 c _ (by rw [hl1, hl]) h2 i, e1]
+            simp only [wsumFrom, hap]
+            cases anc pr.nodes i c <;> (simp <;> omega)
+          | some nx =>
+            simp only [hn] at h
+            obtain ⟨ds2, h2, hl2⟩ := addAt_ok ds1 nx (↑(newB.getD k 0)) (by rw [hl1, hl]; exact hidx _ _ hn)
+            rw [h2] at h
+            simp only at h
+            obtain ⟨l, c2, c1⟩ := cont _ ds2 (by rw [hl2, hl1, hl]) h
+            subst c2; rw [c1, subSum_addAt pr.nodes ds1 ds2 nx _ (by rw [hl1, hl]) h2 i, e1]
+            have : appliedIn pr i { v with cur := v.next, curEpoch := v.nextEpoch } = anc pr.nodes i nx := by
+              simp [appliedIn, hn]
+            simp only [wsumFrom, hap, this]
+            cases anc pr.nodes i c <;> cases anc pr.nodes i nx <;> (simp <;> omega)
+      · -- untouched: same applied vote, same balance
+        rename_i hnz hnt
+        obtain ⟨l, c2, c1⟩ := cont v ds hl h
+        subst c2; rw [c1]
+        have hb : oldB.getD k 0 = newB.getD k 0 := by
+          by_cases hb : oldB.getD k 0 = newB.getD k 0
+          · exact hb
+          · exact absurd (Or.inr (Or.inr hb)) hnt
+        simp only [wsumFrom, hb]
+        cases appliedIn pr i v <;> (simp <;> omega)
+
 end Zrnt.ForkChoice
